@@ -123,3 +123,8 @@ func VerifErrClass(err error) string {
 	}
 	return "other"
 }
+
+// VerifRLock / VerifRUnlock take and release the syncer's read lock (the one AddChunk holds), so
+// the harness can make an AddChunk overlap with applyChunks' rejection critical section.
+func (s *syncer) VerifRLock()   { s.mtx.RLock() }
+func (s *syncer) VerifRUnlock() { s.mtx.RUnlock() }
